@@ -194,7 +194,8 @@ Section Sound.
     | VBasic => String.prefix "did:" (kid_string h) = true /\
                 exists d f rest, split_on "#" (kid_string h) = d :: f :: rest /\ resolve d f = Some k
     | VSingle k' => k = k'
-    | VUnsecured => False
+    | VFixed _ k' => k = k'
+    | VUnsecured | VDefault _ => False
     end.
 
   (* the bytes the signature must cover *)
@@ -210,7 +211,9 @@ Section Sound.
     | _ => b64dec pseg = Some payload /\ b64enc payload = pseg
     end.
 
-  Definition sig_checking (c : vcfg) : Prop := c <> VUnsecured.
+  (* the verifiers the property's acceptance claim is proved for; VDefault has its own (weaker) theorems *)
+  Definition sig_checking (c : vcfg) : Prop :=
+    match c with VBasic | VSingle _ | VFixed _ _ => True | VUnsecured | VDefault _ => False end.
 
   Lemma crypto_ok_inv alg k msg sg : crypto_ok Fixed alg k msg sg = true ->
     exists p, sig_meaning sg = SBy (pk_id k) p msg /\ alg_spec alg = Some (pk_fam k, p).
@@ -221,11 +224,11 @@ Section Sound.
     subst. exists p. split; [reflexivity|exact H2].
   Qed.
 
-  Lemma verify_ok_inv c h msg sg : sig_checking c -> verify Fixed c h msg sg = VOk ->
+  Lemma verify_ok_inv c h msg msgc sg : sig_checking c -> verify Fixed c h msg msgc sg = VOk ->
     exists alg k p, h_alg h = JS alg /\ key_for c h k /\
                     sig_meaning sg = SBy (pk_id k) p msg /\ alg_spec alg = Some (pk_fam k, p).
   Proof.
-    intros SC. destruct c as [|k0|]; cbn [Model.verify].
+    intros SC. destruct c as [|k0| |a0 k0|k0]; cbn [Model.verify].
     - unfold verify_basic. destruct (h_alg h) as [| |alg|]; try discriminate.
       destruct (negb (mem_str alg registered)); [discriminate|].
       destruct (negb (String.prefix "did:" (kid_string h))) eqn:P; [discriminate|].
@@ -241,7 +244,15 @@ Section Sound.
       destruct (String.eqb alg a && crypto_ok Fixed alg k0 msg sg) eqn:C; [|discriminate]. intros _.
       apply andb_true_iff in C as [_ C]. apply crypto_ok_inv in C as (p & C1 & C2).
       exists alg, k0, p. repeat split; assumption.
-    - exfalso. apply SC. reflexivity.
+    - destruct SC.
+    - unfold verify_fixed. destruct (h_alg h) as [| |alg|]; try discriminate.
+      destruct (alg_spec a0) as [[f p]|] eqn:AS; try discriminate.
+      destruct (sig_meaning sg) as [kid p' m| |] eqn:SM; try discriminate.
+      destruct (String.eqb alg a0 && fam_eqb f (pk_fam k0) && (kid =? pk_id k0) && sproc_eqb p p' && leqb m msg) eqn:C; [|discriminate].
+      intros _. repeat (apply andb_true_iff in C as [C ?]).
+      apply String.eqb_eq in C. apply fam_eqb_eq in H2. apply N.eqb_eq in H1. apply sproc_eqb_eq in H0. apply leqb_eq in H.
+      subst. exists a0, k0, p'. repeat split; try reflexivity. exact AS.
+    - destruct SC.
   Qed.
 
   Lemma payload_of_inv det pseg payload : payload_of Fixed det pseg = Some payload -> payload_received det pseg payload.
@@ -281,7 +292,7 @@ Section Sound.
     destruct (payload_of Fixed det pseg) as [pl|] eqn:PO; [|discriminate].
     destruct (signing_input h' hseg pl) as [msg|] eqn:SI; [|discriminate].
     destruct (b64dec sseg) as [sg|] eqn:DS; [|discriminate].
-    destruct (verify Fixed c h' msg sg) eqn:V; try discriminate.
+    destruct (verify Fixed c h' msg (signing_input h' (b64enc (h_canon h')) pl) sg) eqn:V; try discriminate.
     intro H. inversion H; subst h' pl. clear H.
     apply verify_ok_inv in V as (alg & k & p & A1 & A2 & A3 & A4); [|exact SC].
     apply signing_input_inv in SI. subst msg. apply payload_of_inv in PO.
@@ -309,8 +320,8 @@ Section Sound.
     destruct (payload_of Fixed det pseg) as [pl|]; [|discriminate].
     destruct (signing_input h' hseg pl) as [msg|]; [|discriminate].
     destruct (b64dec sseg) as [sg|]; [|discriminate].
-    destruct (verify Fixed c h' msg sg) eqn:V; try discriminate.
-    exfalso. destruct c as [|k0|]; cbn [Model.verify] in V.
+    destruct (verify Fixed c h' msg (signing_input h' (b64enc (h_canon h')) pl) sg) eqn:V; try discriminate.
+    exfalso. destruct c as [|k0| |a0 k0|k0]; cbn [Model.verify] in V.
     - unfold verify_basic in V. destruct (h_alg h'); try discriminate.
       destruct (negb (mem_str s registered)); [discriminate|].
       destruct (negb (String.prefix "did:" (kid_string h'))); [discriminate|].
@@ -321,6 +332,12 @@ Section Sound.
       destruct (String.eqb s s0 && crypto_ok Fixed s k0 msg sg); discriminate.
     - unfold verify_unsecured in V. destruct (h_alg h'); try discriminate.
       destruct (String.eqb s "none" && is_nil sg); discriminate.
+    - unfold verify_fixed in V. destruct (h_alg h'); try discriminate. destruct (alg_spec a0) as [[f p]|]; try discriminate.
+      destruct (sig_meaning sg); try discriminate.
+      destruct (String.eqb s a0 && fam_eqb f (pk_fam k0) && (k =? pk_id k0) && sproc_eqb p p0 && leqb m msg); discriminate.
+    - unfold verify_default in V. destruct (signing_input h' (b64enc (h_canon h')) pl); try discriminate.
+      destruct (default_proc (pk_fam k0)); try discriminate. destruct (sig_meaning sg); try discriminate.
+      destruct ((k =? pk_id k0) && sproc_eqb s p && leqb m l); discriminate.
   Qed.
 
   (* two accepted tokens carrying the same signature bytes have the same header segment, byte for byte, and the
@@ -353,8 +370,10 @@ Section Sound.
 
   Lemma key_for_unique c h k k' : key_for c h k -> key_for c h k' -> k = k'.
   Proof.
-    destruct c as [|k0|]; cbn.
+    destruct c as [|k0| |a0 k0|k0]; cbn.
     - intros (_ & d & f & r & S & R) (_ & d' & f' & r' & S' & R'). rewrite S in S'. inversion S'; subst. congruence.
+    - congruence.
+    - intros [].
     - congruence.
     - intros [].
   Qed.
@@ -423,6 +442,50 @@ Section Sound.
     destruct (String.eqb a "none") eqn:E; [|discriminate]. destruct sg; [|discriminate].
     intros _. apply String.eqb_eq in E. subst. split; reflexivity.
   Qed.
+
+  (* ---------- jose.DefaultSigningInputVerifier ---------- *)
+  Lemma default_accept_sound k det tok h payload :
+    parse_jws Fixed (VDefault k) det tok = Accept h payload ->
+    exists hseg pseg sseg hb p sg,
+      split_dot tok = [hseg; pseg; sseg] /\ b64dec hseg = Some hb /\ parse_hdr hb = Some h /\
+      default_proc (pk_fam k) = Some p /\ b64dec sseg = Some sg /\
+      sig_meaning sg = SBy (pk_id k) p (signed_bytes h (b64enc (h_canon h)) payload) /\
+      payload_received det pseg payload.
+  Proof.
+    unfold Model.parse_jws.
+    destruct (starts_brace tok); [discriminate|].
+    destruct (split_dot tok) as [|hseg [|pseg [|sseg [|x y]]]] eqn:S; try discriminate.
+    destruct (b64dec hseg) as [hb|] eqn:DH; [|discriminate].
+    destruct (parse_hdr hb) as [h'|] eqn:PH; [|discriminate].
+    destruct (jv_absent (h_alg h')); [discriminate|].
+    destruct (payload_of Fixed det pseg) as [pl|] eqn:PO; [|discriminate].
+    destruct (signing_input h' hseg pl) as [msg|] eqn:SI; [|discriminate].
+    destruct (b64dec sseg) as [sg|] eqn:DS; [|discriminate].
+    cbn [Model.verify]. unfold verify_default.
+    destruct (signing_input h' (b64enc (h_canon h')) pl) as [mc|] eqn:SC; [|discriminate].
+    destruct (default_proc (pk_fam k)) as [p|] eqn:DP; [|discriminate].
+    destruct (sig_meaning sg) as [kid p' m| |] eqn:SM; try discriminate.
+    destruct ((kid =? pk_id k) && sproc_eqb p p' && leqb m mc) eqn:C; [|discriminate].
+    intro H. inversion H; subst h' pl. clear H.
+    apply andb_true_iff in C as [C C3]. apply andb_true_iff in C as [C1 C2].
+    apply N.eqb_eq in C1. apply sproc_eqb_eq in C2. apply leqb_eq in C3. subst kid p' m.
+    apply signing_input_inv in SC. subst mc. apply payload_of_inv in PO.
+    exists hseg, pseg, sseg, hb, p, sg. repeat split; assumption.
+  Qed.
+
+  (* under the guard "the received header segment is the encoding of the re-marshalled header" the signature covers
+     the received bytes *)
+  Lemma default_received_when_canonical k tok h payload :
+    parse_jws Fixed (VDefault k) None tok = Accept h payload ->
+    b64enc (h_canon h) = nth 0 (split_dot tok) [] -> h_b64 h <> JB false ->
+    exists p sg, b64dec (nth 2 (split_dot tok) []) = Some sg /\
+      sig_meaning sg = SBy (pk_id k) p (nth 0 (split_dot tok) [] ++ dot :: nth 1 (split_dot tok) []).
+  Proof.
+    intros H CAN NB. apply default_accept_sound in H as (hs & ps & ss & hb & p & sg & S & _ & _ & _ & DS & M & PR).
+    rewrite S in *. cbn [nth] in *. exists p, sg. split; [exact DS|].
+    cbn in PR. destruct PR as [_ PR]. rewrite CAN in M. unfold signed_bytes in M.
+    destruct (h_b64 h) as [| | |[|]]; try (rewrite PR in M; exact M). exfalso. apply NB. reflexivity.
+  Qed.
 End Sound.
 
 (* didsignjwt.VerifyJWT / any verifier over the VDR resolver: an accepted token is signed, under its alg, by a key
@@ -437,7 +500,7 @@ Lemma did_accept_signing_method ph ds sm tok det h payload :
     b64dec (nth 2 (split_dot tok) []) = Some sg /\
     sm sg = SBy (pk_id (vm_key m)) p (signed_bytes h (nth 0 (split_dot tok) []) payload).
 Proof.
-  intro H. apply jws_accept_sound in H; [|discriminate].
+  intro H. apply jws_accept_sound in H; [|exact I].
   destruct H as (hs & ps & ss & hb & a & k & q & sg & T & _ & _ & _ & S & _ & _ & A & K & AS & DS & M & PR).
   cbn in K. destruct K as (_ & d & f & rest & SP & R).
   apply resolve_docs_sound in R as (ms & m & FD & I & EK & C & NK). subst k.
